@@ -203,7 +203,7 @@ Comp(e, g, env, st, cx, acc, dummy) ==
 Eval(e, env, st, cx) ==
     CASE e.k = "Var" -> IF e.n \in DOMAIN env THEN Ok(env[e.n], st) ELSE Er("NameError", st)
       [] e.k = "BoolVal" -> Ok(B(e.v), st)
-      [] e.k = "Num" -> Ok(Canon(e.v), st)
+      [] e.k = "Num" -> IF e.v.k = "big" THEN Er("OutOfDomain", st) ELSE Ok(Canon(e.v), st)      \* a literal too wide for TLC integers: the run leaves the domain
       [] e.k = "CtxVal" -> Ok(CtxV(e.c), st)
       [] e.k = "Enum" -> Ok([k |-> "enum", v |-> e.v], st)
       [] e.k = "ConstNan" -> MRound(cx, NaN, st)
